@@ -6,6 +6,7 @@
 import CffVerif.Gen.Flow
 import CffVerif.Gen.FlowRun
 import CffVerif.Gen.ParBody
+import CffVerif.Gen.ParEnd
 
 namespace Gen.Check
 
@@ -394,12 +395,23 @@ def checkPar (p : Prog) (sc : Scenario) (defaultConc : Nat) (o : Obs) : List Div
   let events :=
     if p.emitters == 0 && o.ev.isEmpty then [] else
       let tasks := (p.ptasks.filter (·.instr)).map fun t =>
-        let (oc, cls) := match sc.fnOut t.k with
-          | .err => ("TaskError", s!"err:{t.k}")
-          | .panic => ("TaskPanic", s!"panic:{t.k}:{sc.vclass 'q' t.k 0}")
-          | .ok => ("TaskSuccess", "-")
+        -- the outcome event of one invocation comes from the model of the task body (Gen.parTaskEvents)
+        let (oc, cls) := (parTaskEvents sc t).headD ("TaskSuccess", "-")
         ({ k := t.k, called := obsLines.contains s!"call {t.k}", outcome := oc, cls } : EvTask)
       checkEvents p.emitters p.instrDir "Parallel" o.ret (!o.ret.isEmpty && (!coe || sc.cancel != "none")) tasks o
+  -- closing events of every installed emitter against the model's epilogue `Gen.parEnd`
+  let closing :=
+    if p.emitters == 0 || before then [] else
+      (List.range p.emitters).flatMap fun n =>
+        let got : List DEv := ((o.ev.filter (·.1 == n)).map (·.2)).filterMap fun e =>
+          if e.k == -1 || e.kind == "TaskSkipped" then some (e.kind, e.k, e.cls) else none
+        if o.ret.isEmpty && C.isEmpty && cancelK.isNone then
+          let want := parEnd p [] (fun _ => true)
+          if got != want then [("events", s!"emitter {n}: closing events {got} want {want}")] else []
+        else
+          let want := (parEnd p o.ret (fun _ => true)).filter DEv.isDirective
+          if got.filter DEv.isDirective != want then
+            [("events", s!"emitter {n}: directive events {got.filter DEv.isDirective} want {want}")] else []
   -- End hooks start after all their elements ended
   let order := o.stamps.flatMap fun (kind, ids, start, _) =>
     if kind == "secall" || kind == "mecall" then
@@ -407,7 +419,7 @@ def checkPar (p : Prog) (sc : Scenario) (defaultConc : Nat) (o : Obs) : List Div
       let maxEnd := ((o.stamps.filter fun s => s.1 == ek && s.2.1.head? == ids.head?).map (·.2.2.2)).foldl max 0
       if start < maxEnd then [("order", s!"{kind} {ids} started before all its elements ended")] else []
     else []
-  callDivs ++ retDivs ++ unclassified ++ events ++ order ++ checkCommon p sc defaultConc o
+  callDivs ++ retDivs ++ unclassified ++ events ++ closing ++ order ++ checkCommon p sc defaultConc o
 
 /-! ### accept verdict and static checks -/
 
